@@ -47,11 +47,34 @@ def render_cue(c) -> str:
     return " ; ".join(parts)
 
 
+HANGS = [0]
+
+
+class _Guard:
+    """watchdog with a circuit breaker: after 5 expiries the parser counts as hanging for the rest of the run
+    (otherwise a parser that spins on most inputs would make the check itself run for hours)."""
+
+    def __init__(self, seconds):
+        self.cm = impl.watchdog(seconds)
+
+    def __enter__(self):
+        if HANGS[0] >= 5:
+            raise impl.Hang()
+        return self.cm.__enter__()
+
+    def __exit__(self, et, ev, tb):
+        if et is not None and issubclass(et, impl.Hang):
+            HANGS[0] += 1
+        return self.cm.__exit__(et, ev, tb)
+
+
 def parse_real(lines: Sequence[str]) -> str:
     from smpl_extract.cuesheet import BadCueSheet, parse_cue_sheet
 
     try:
-        return render_cue(parse_cue_sheet(list(lines)))
+        with _Guard(3.0):
+            c = parse_cue_sheet(list(lines))
+        return render_cue(c)
     except BadCueSheet:
         return "err BadCueSheet"
     except Exception as e:
@@ -62,9 +85,12 @@ def meaning_real(lines: Sequence[str]):
     from smpl_extract.cuesheet import BadCueSheet, parse_cue_sheet
 
     try:
-        c = parse_cue_sheet(list(lines))
+        with _Guard(3.0):
+            c = parse_cue_sheet(list(lines))
     except BadCueSheet:
         return "BadCueSheet"
+    except impl.Hang:
+        return "hang"
     return (
         c.bin_file_name,
         [(t.number, t.mode, t.title, [(i.number, i.n_minutes, i.n_seconds, i.n_frames) for i in t.indices]) for t in c.tracks],
@@ -82,9 +108,12 @@ def windows_real(lines: Sequence[str], bin_len: int) -> str:
         from smpl_extract.cuesheet import parse_cue_sheet
 
         try:
-            name = parse_cue_sheet(list(lines)).bin_file_name
+            with _Guard(3.0):
+                name = parse_cue_sheet(list(lines)).bin_file_name
         except BadCueSheet:
             return "err BadCueSheet"
+        except impl.Hang:
+            return "err hang"
         safe = os.path.basename(name) or "x.bin"
         with open(os.path.join(d, safe), "wb") as f:
             f.truncate(bin_len)
@@ -92,9 +121,12 @@ def windows_real(lines: Sequence[str], bin_len: int) -> str:
             return "skip"
         A.determine_image_type = lambda f: (f.close(), "DATA")[1]
         try:
-            img = A.attempt_parse_cue_sheet(list(lines), d)
+            with _Guard(5.0):
+                img = A.attempt_parse_cue_sheet(list(lines), d)
         except BadCueSheet:
             return "err BadCueSheet"
+        except impl.Hang:
+            return "err hang"
         if img == "DATA":
             return "data ; "
         out = ["cdda"]
